@@ -960,7 +960,23 @@ func (r *HarnessRun) execute(workers int) {
 			}
 		}()
 	}
+	stopProgress := make(chan struct{})
+	go func() {
+		tk := time.NewTicker(30 * time.Second)
+		defer tk.Stop()
+		for {
+			select {
+			case <-stopProgress:
+				return
+			case <-tk.C:
+				r.mu.Lock()
+				fmt.Fprintf(os.Stderr, "[%s] %s: ... %d paths so far, queue=%d, violations=%d, %.0fs\n", r.prop, r.name, r.paths, len(r.queue), len(r.violations), time.Since(r.t0).Seconds())
+				r.mu.Unlock()
+			}
+		}
+	}()
 	wg.Wait()
+	close(stopProgress)
 	r.wall = time.Since(r.t0)
 }
 
